@@ -375,7 +375,8 @@ def bounded_scipy_instance():
 
     def make(B):
         kind = B.choose('kind', ['full', 'diagonal', 'spherical', 'vmf', 'ccsg', 'watson-int', 'bingham-form', 'cacg-int', 'bingham-logpdf', 'bingham-logpdf', 'cacg-scale'])
-        D = B.choose('D', [1, 2, 3, 5, 8] if kind in ('full', 'diagonal', 'spherical') else [2, 3, 4, 6])
+        # (feature vectors of hundreds of dimensions are ordinary for the Gaussian stream: spectra, embeddings)
+        D = B.choose('D', [1, 2, 3, 5, 8, 64, 513] if kind in ('full', 'diagonal', 'spherical') else [2, 3, 4, 6])
         lead = B.choose('lead', [(), (2,), (3, 2)])
         seed = B.choose('seed', list(range(1000)))
         return {'kind': kind, 'D': D, 'lead': tuple(lead), 'seed': seed, 'dummy': B.given('dummy', np.zeros(1))}
@@ -393,10 +394,10 @@ def bounded_scipy_instance():
             if kind == 'full':
                 model, cov_ref = g.Gaussian(mean=mean, covariance=cov_full), cov_full
             elif kind == 'diagonal':
-                dg = rng.uniform(0.2, 3.0, size=lead + (D,))
+                dg = rng.uniform(0.2, 3.0, size=lead + (D,)) * 10.0 ** rng.uniform(-3, 3)
                 model, cov_ref = g.DiagonalGaussian(mean=mean, covariance=dg), dg[..., None] * np.eye(D)
             else:
-                sg = np.asarray(rng.uniform(0.2, 3.0, size=lead))
+                sg = np.asarray(rng.uniform(0.2, 3.0, size=lead)) * 10.0 ** rng.uniform(-3, 3)
                 model, cov_ref = g.SphericalGaussian(mean=mean, covariance=sg), sg[..., None, None] * np.eye(D)
             got = model.log_pdf(y)
             ref = np.empty(lead + (N,))
